@@ -32,3 +32,11 @@ Lemma C09_inst_sort_keys :
     [(s2p "json", (s2p "test_name", s2p "filename")); (s2p "yaml", (s2p "test_name", s2p "filename"))] = true.
 Proof. vm_compute. reflexivity. Qed.
 Print Assumptions C09_inst_sort_keys.
+
+(* every machine-readable formatter takes its records from one call of manager.get_issue_list with its own two
+   thresholds and walks that list with loops that neither skip nor stop: one record per reported finding *)
+Lemma C09_inst_record_loops :
+  forallb (fun r => Z.eqb (fst (snd r)) 1 && Z.leb 1 (fst (snd (snd r))) && snd (snd (snd r))) RECORD_LOOPS = true
+  /\ map fst RECORD_LOOPS = [s2p "json"; s2p "yaml"; s2p "csv"; s2p "xml"; s2p "html"; s2p "sarif"; s2p "custom"].
+Proof. split; vm_compute; reflexivity. Qed.
+Print Assumptions C09_inst_record_loops.
